@@ -104,7 +104,11 @@ def mutate(frame, info, mut):
     else:
         raise ValueError(t)
     out = build_cpf([(at, ad), (dt, pre + new)], iface, tmo)
-    return build_encap(cmd, sess, est, ctx8, out)
+    full = build_encap(cmd, sess, est, ctx8, out)
+    if mut.get("then_truncate") is not None and mut["then_truncate"] < len(full):
+        cut = full[:mut["then_truncate"]]
+        full = cut[:2] + struct.pack("<H", len(cut) - 24) + cut[4:]
+    return full
 
 
 def classify(frame, cmd_expected):
@@ -470,7 +474,7 @@ def directed(tier, prop="C13"):
     sts = list(range(256))
     for kind in KINDS:
         if kind in ("register", "list_identity"):
-            for s in (1, 2, 3, 0x64, 0x65, 0x69, 0xFFFF):
+            for s in (1, 2, 3, 0x64, 0x65, 0x69, 0xFFFF, 0x10000, 0x80000000, 0xFFFF0000):
                 sc = base_scenario(kind, seed)
                 sc["fault"] = {"nth": 0, "mut": {"type": "encap", "status": s}}
                 out.append(sc)
@@ -493,10 +497,17 @@ def directed(tier, prop="C13"):
                         continue
                     sc["fault"] = {"nth": nth, "mut": {"type": "status", "status": st, "ext": ext, "keep_data": st in (0, 6)}}
                     out.append(sc)
-            for s in (1, 2, 3, 0x64, 0x65, 0x69):
+            for s in (1, 2, 3, 0x64, 0x65, 0x69, 0x10000, 0x80000000):
                 sc = base_scenario(kind, seed)
                 sc["fault"] = {"nth": nth, "mut": {"type": "encap", "status": s}}
                 out.append(sc)
+            # an error reply cut short at every byte around its status words
+            for st, ext in ((0x05, []), (0xFF, [0x2105]), (0x1F, [1, 2])):
+                for at in range(38, 58):
+                    sc = base_scenario(kind, seed)
+                    sc["fault"] = {"nth": nth, "mut": {"type": "status", "status": st, "ext": ext, "keep_data": False,
+                                                       "then_truncate": at}}
+                    out.append(sc)
         if multi:
             n = len(base_scenario(kind, 0)["op"]["texts"])
             # the multi-service reply's own status
@@ -545,7 +556,7 @@ def gen(seed, tier, prop="C13"):
     c = r.random()
     if kind in ("register", "list_identity"):
         if c < 0.3:
-            mut = {"type": "encap", "status": r.choice((1, 2, 3, 0x64, 0x65, 0x69, r.randrange(1, 2**32)))}
+            mut = {"type": "encap", "status": r.choice((1, 2, 3, 0x64, 0x65, 0x69, 0x10000, 0x80000000, 0xFFFF0000, r.randrange(1, 2**32)))}
         elif c < 0.6:
             mut = {"type": "truncate", "at": r.randrange(0, 80), "fix_len": r.random() < 0.7}
         elif c < 0.8:
@@ -558,13 +569,15 @@ def gen(seed, tier, prop="C13"):
         if r.random() < 0.3:
             ext = [r.choice((0x2105, 0x2107, 0x2104, 0x0100, 0x0107, 0x0311))]
         mut = {"type": "status", "status": st, "ext": ext, "keep_data": r.random() < 0.5}
+        if r.random() < 0.25:
+            mut["then_truncate"] = r.randrange(36, 60)
     elif c < 0.4 and kind in ("multiread", "multiwrite"):
         n = len(sc["op"]["texts"])
         mut = {"type": "multi", "statuses": [r.choice((0, 0, r.randrange(256))) for _ in range(n)]}
     elif c < 0.45 and kind in ("multiread", "multiwrite"):
         mut = {"type": "multi_count", "count": r.choice((0, 1, 2, 5, 100, 65535))}
     elif c < 0.5:
-        mut = {"type": "encap", "status": r.choice((1, 2, 3, 0x64, 0x65, 0x69, r.randrange(1, 2**32)))}
+        mut = {"type": "encap", "status": r.choice((1, 2, 3, 0x64, 0x65, 0x69, 0x10000, 0x80000000, 0xFFFF0000, r.randrange(1, 2**32)))}
     elif c < 0.7:
         mut = {"type": "truncate", "at": r.randrange(0, 120), "fix_len": r.random() < 0.7}
     elif c < 0.88:
